@@ -61,6 +61,11 @@ CHECKS = {
    text="Stateless exploration on the real scope::run! under the controlled tokio scheduler (vendored tokio 1.45.1 + verif_sched patch: the explorer picks the next runnable task and every select! start branch): every program of a generated family of task trees (3360 programs quick / ~40k thorough: root body x up to 2-3 children, main/background, bodies {Ok, Err, panic, wait-for-cancel then Ok/Err}, a child that spawns a grandchild or runs a nested scope, caller context plain / cancelled while running / deadline passing on the manual clock / already cancelled) x every schedule within deviation bound 2 (quick) / 3 (thorough). Oracle over the event log: run! returns after the last task end; Ok iff nobody failed; otherwise the error of the first failing task in event order; any panic is re-raised (after all tasks ended); an idle scheduler while a cancellation is due (failure, all main tasks done, caller cancelled) is a lost-cancellation deadlock.",
    note="Task switches only at awaits that return Pending (current-thread runtime); thread-level races inside set_err / guard drops on a multi-thread runtime are not explored. Blocking tasks (spawn_blocking, run_blocking!, wait_blocking) run on real OS threads outside the controlled scheduler: they are oracle-checked on repeated uncontrolled runs and reported separately as sampled, not exhaustive.",
    technique="stateless model checking of the implementation under a controlled scheduler: exhaustive enumeration of task interleavings (deviation-bounded) for every program of a bounded family, against an event-log reference model"),
+ "C18": dict(
+   category="exploration", design="DESIGN.md §4 C18",
+   text="Exhaustive enumeration of batch sequences on the real ValidatorAddrsWatch::update / announce (hook VAddrsWatch): every sequence of the scope - one batch of <= 3 announcements, a batch of <= 2 followed by a batch of <= 2 (quick) / <= 3 (thorough), the node's own announcement before / between batches, thorough: three batches of <= 2 - over a 9-symbol alphabet (two committee members with several (version, timestamp, address) combinations incl. version u64::MAX, a forged newer and a forged older copy, a non-member's valid announcement; repeated keys arise from repetition). After every batch the real book is compared with the stated rule on a map: rejected batch leaves the book unchanged, batches with a duplicated key or a forged newer entry are rejected, non-members ignored, only strictly newer (version, timestamp) replaces, every stored entry is authentic. Plus every subset of <= 4 valid announcements delivered in every arrival order ends in the same book.",
+   note="Two members and one non-member; BLS signatures trusted; equal (version, timestamp) ties excluded from order independence as the property states.",
+   technique="exhaustive bounded enumeration of operation sequences on the real code against a reference model"),
 }
 
 def main():
